@@ -107,6 +107,7 @@ INDEX = {
  ]},
  "C18": {"package": ".", "harnesses": [
    {"name": "VerifH18HourView", "common": {"max_depth": 3000}, "quick": {"bounds": {"days": 2}}, "thorough": {"bounds": {"days": 3}}},
+   {"name": "VerifH18SetBitViews", "common": {"max_depth": 4000, "allow_go": True}, "quick": {"bounds": {"quanta": 4, "writes": 2, "instants": 3}}, "thorough": {"bounds": {"quanta": 10, "writes": 2, "instants": 5}}},
  ]},
  "C19": {"package": ".", "harnesses": [
    {"name": "VerifH19ClearBit", "common": {"max_depth": 3000}, "quick": {"bounds": {"quanta": 10, "instants": 3}}, "thorough": {"bounds": {"quanta": 10, "instants": 5}}},
